@@ -73,6 +73,47 @@ def _case(kinds, edges, fixed, ff, prelinearize=False):
     return fn
 
 
+def _two_calls(kinds, edges, fixed1, ff1, change, ff2):
+    """a second optimize(max_iter=1) on the same Graph object after the fixed flags were edited: its step must be the
+    Gauss-Newton step of the problem as it is now (nothing left over from the first linearisation)"""
+
+    def fn(P, g):
+        np = P.np
+        env = install_stubs(P, g)
+        graph, verts, eobjs, ids = structure_graph(P, g, kinds, edges, fixed1)
+        graph.optimize(tol=1e-9, max_iter=1, fix_first_pose=ff1, verbose=False)
+        for i, val in change.items():
+            verts[i].fixed = val
+        eff = {i for i, v in enumerate(verts) if v.fixed} | ({0} if ff2 else set())
+        b_ref, H_ref, offs, dims = reference_system(P, kinds, edges, eobjs, eff)
+        init = [v.pose.to_array() for v in verts]
+        before = [v.pose for v in verts]  # optimize() rebinds vertex.pose: these objects keep the pre-call poses
+        n0 = len(env.solves)
+        graph.optimize(tol=1e-9, max_iter=1, fix_first_pose=ff2, verbose=False)
+        P.check_eq("gradient_second_call", graph._gradient, b_ref)
+        P.check_eq("hessian_second_call", dense(graph._hessian), H_ref)
+        if P.symbolic:
+            P.check("one_more_solve", len(env.solves) == n0 + 1)
+            A, rhs, dx = env.solves[-1]
+            P.check_eq("solve_matrix_second_call", A, H_ref)
+            P.check_eq("solve_rhs_second_call", rhs, -b_ref)
+            for i, v in enumerate(verts):
+                if i in eff:
+                    P.check_eq("fixed_pose_%d" % i, v.pose.to_array(), init[i])
+                else:
+                    P.check_eq("updated_pose_%d" % i, v.pose.to_array(), (before[i] + dx[offs[i] : offs[i] + dims[i]]).to_array())
+
+    return fn
+
+
+TWO_CALLS = [
+    (["SE2", "SE2", "R2"], [(0, 1), (1, 2)], {2}, False, {}, True),  # first pose free in call 1, fixed in call 2
+    (["SE2", "R2", "SE2"], [(0, 1), (2, 1), (0, 2)], set(), True, {2: True}, False),
+    (["R2", "SE2", "R3"], [(0, 1), (1, 2)], {0, 2}, False, {2: False}, False),  # a vertex released between the calls
+    (["R3", "R3"], [(0, 1), (1, 0)], set(), True, {1: True, 0: False}, False),
+]
+
+
 def _ctor_args(kind, arr):
     if kind in ("R2", "R3"):
         return (arr,)
@@ -154,5 +195,6 @@ def cases(tier):
                 seen.add(_name(s))
                 structs.append(s)
     out = [Case(_name(s), _case(*s), timeout=10, old_timeout=20, validate=1 if tier == "quick" or i >= 40 else 2, feas_timeout_ms=1000) for i, s in enumerate(structs)]
+    out += [Case("twocalls%d" % i, _two_calls(*t), timeout=10, old_timeout=20, validate=1, feas_timeout_ms=1000) for i, t in enumerate(TWO_CALLS)]
     out += [Case("relinearized|" + _name(s), _case(*s, prelinearize=True), timeout=10, old_timeout=20, validate=1, feas_timeout_ms=1000) for s in QUICK]
     return out
